@@ -131,6 +131,16 @@ def make_jobs(ctx, stride=1, channels=(1, 2, 3), skip_major=(0x16,)):
                 j = Job(f, 2, sr, n, ty, gen_values(rng, ty, n * 2, 0), None)
                 j.garbage = 0
                 jobs.append(j)
+    # PEAK-carrying files: every caller type through the converting writers, 2 channels, one call longer than every staging buffer
+    # (the per-channel PEAK position must not depend on how the samples were split over calls)
+    pk = [f for f in fs if f.codec in (0x06, 0x07) and f.major in (0x01, 0x02, 0x13, 0x18)]
+    for f in pk:
+        for ty in ("s16", "s32", "f32", "f64"):
+            n = 2731
+            unit = ty in ("f32", "f64")
+            j = Job(f, 2, 8000, n, ty, gen_values(rng, ty, n * 2, 0, unit=unit), None)
+            j.garbage = 0
+            jobs.append(j)
     return jobs
 
 
